@@ -11,7 +11,7 @@ EXPL = ("R16.1 no result of write_vectored / write_all_vectored / EntryIoStream:
         "arms; R16.4 a tee calls both inner streams on every path; R16.6 (= R14.2 on the output buffers) whatever an entry had put into the formatter's buffers when its "
         "write failed is discarded before the next entry uses them, on every path; R16.5 (= R01.3) no branch of the background "
         "drain loop derives from the result of writing an entry, and the consumer's error arms write only integer counters and never "
-        "re-insert: an error on one entry cannot stop, skip or repeat later ones. Not decided: byte-exact slice arithmetic of advance_slices.")
+        "re-insert: an error on one entry cannot stop, skip or repeat later ones. The advancing helper's loop exits only on list-exhausted / partial-slice conditions (so no empty slice is left in front). Not decided: byte-exact slice arithmetic of advance_slices.")
 
 IO_METHODS = [("Write", ("write_vectored", "flush", "write_all", "write")), ("EntryIoStream", ("next", "flush")),
               ("Format", ("format",)), ("SampledFormat", ("format_with_sample_rate",)), ("EntryIoStreamExt", ("report_error",))]
@@ -136,6 +136,121 @@ def flows_to_panicker(body, l, depth=4, seen=None):
     return None
 
 
+def possibly_empty_buffers(ctx, F):
+    """buffers handed to the crate's vectored send for which no evidence of non-emptiness is found: [(body, description)].
+    Evidence for a PrefixedStringBuf field: a non-empty constant / formatted prefix at construction, an append on every path before the send,
+    or the send being guarded by `!is_empty()` of that buffer.  For a plain slice: a non-empty literal or a formatted number."""
+    import rules.c02 as c02
+    from mq.bufsim import BufSim
+    CR = c02.CR
+    # constructor evidence per field name
+    ctor_ok = set()
+    for b in F.all_bodies(CR):
+        if not c02.in_scope(b):
+            continue
+        pr = Prov(b)
+        sim = None
+        for i in b.live_blocks():
+            for s_ in b.stmts(i):
+                if s_["k"] == "assign" and s_["rv"]["k"] == "agg" and (s_["rv"].get("adt") or "").startswith(CR) and s_["rv"].get("fields"):
+                    for fn_, op in zip(s_["rv"]["fields"], s_["rv"]["ops"]):
+                        l = op_local(op)
+                        if l is None or "PrefixedStringBuf" not in b.local_ty(l):
+                            continue
+                        for x in pr.operand(op):
+                            if x[0] == "call":
+                                t = b.term(x[1])
+                                if (t.get("callee") or {}).get("name") in ("new", "from_prefix") and t.get("args"):
+                                    sim = sim or BufSim(F, b, CR)
+                                    k = sim._const_str(t["args"][0])
+                                    po = pr.operand(t["args"][0])
+                                    built = any(y[0] == "call" and (b.term(y[1]).get("callee") or {}).get("name") in ("format", "must_use", "with_capacity", "to_string") for y in po)
+                                    if (k is not None and len(k) > 0) or built:
+                                        ctor_ok.add(fn_)
+    out = []
+    nbuf = 0
+    for b in F.all_bodies(CR):
+        if not c02.in_scope(b):
+            continue
+        for c in b.calls():
+            if not c02.is_send(F, c):
+                continue
+            pr = Prov(b)
+            dom = b.dominators()
+            sim = BufSim(F, b, CR)
+            # all elements of the buffer list
+            elems, seen, work = [], set(), [op_local(c.args[0]) if c.args else None]
+            while work:
+                l = work.pop()
+                if l is None or l in seen:
+                    continue
+                seen.add(l)
+                for kind, bb_, idx, node in b.defs().get(l, []):
+                    if b.is_cleanup(bb_):
+                        continue
+                    if kind == "assign" and node["k"] == "assign":
+                        rv = node["rv"]
+                        if rv["k"] == "agg" and rv.get("agg") == "array":
+                            elems += rv["ops"]
+                        elif rv["k"] in ("use", "cast"):
+                            work.append(op_local(rv["op"]))
+                        elif rv["k"] == "agg":
+                            work += [op_local(o) for o in rv["ops"]]
+                    elif kind == "call":
+                        work += [op_local(a) for a in node["args"]]
+                for i in b.live_blocks():
+                    for s_ in b.stmts(i):
+                        if s_["k"] == "assign" and s_["lhs"]["l"] == l and s_["lhs"].get("p") and s_["rv"]["k"] == "agg" and s_["rv"].get("agg") == "array":
+                            elems += s_["rv"]["ops"]
+                # smallvec! with few elements: SmallVec::new() followed by push(elem) ...
+                for x in b.calls():
+                    if x.name == "push" and "smallvec" in x.def_ and c02._recv_local(b, x) == l and len(x.args) > 1:
+                        elems.append(x.args[1])
+            # the two expansions of smallvec! (inline pushes / boxed array) list the same elements: de-duplicate by provenance
+            uniq, seen_e = [], set()
+            for e in elems:
+                key_e = frozenset(pr.operand(e))
+                if key_e not in seen_e:
+                    seen_e.add(key_e)
+                    uniq.append(e)
+            elems = uniq
+            for e in elems:
+                nbuf += 1
+                o = pr.operand(e)
+                fields = {x[2][-1] for x in o if x[0] in ("arg", "callf") and x[2]}
+                k = sim._const_str(e)
+                if not fields:
+                    if (k is not None and len(k) > 0) or any(x[0] == "call" and (b.term(x[1]).get("callee") or {}).get("name") in ("format", "format_finite", "as_str", "as_bytes", "as_ref") for x in o):
+                        continue
+                    out.append((b, "a slice of unknown length"))
+                    continue
+                f = sorted(fields)[0]
+                if f in ctor_ok:
+                    continue
+                # an append to this very buffer on every path before the send
+                apps = [x for x in b.calls() if x.name in ("push_raw_str", "push", "push_integer", "json_string", "push_json_safe_string", "push_json_safe_array",
+                                                            "push_json_safe_log_group_and_timestamp") and x.args and
+                        any(y[0] in ("arg", "callf") and y[2] and y[2][-1] == f for y in pr.operand(x.args[0])) and dominates(b, x.bb, c.bb, dom) and
+                        not (x.name == "push_raw_str" and len(x.args) > 1 and sim._const_str(x.args[1]) == "")]
+                if apps:
+                    continue
+                # the send is guarded by `!buffer.is_empty()`
+                guarded = False
+                for x in b.calls():
+                    if x.name == "is_empty" and x.args and any(y[0] in ("arg", "callf") and y[2] and y[2][-1] == f for y in pr.operand(x.args[0])):
+                        for sw, tg, oth in switch_on_call_result(b, x):
+                            ft = tg.get(0)
+                            if ft is not None and dominates(b, ft, c.bb, dom):
+                                guarded = True
+                if guarded:
+                    continue
+                out.append((b, "buffer `%s`" % f))
+    ctx.floor("R16.2", "buffers handed to vectored sends (checked for emptiness evidence)", nbuf, 5)
+    if out:
+        ctx.note("R16.2: buffers that may be empty when sent: %s" % sorted({d for _, d in out}))
+    return out
+
+
 def cycle_must_pass(body, site, through):
     """every cycle site -> ... -> site passes through one of the blocks in `through`"""
     return site not in body.reachable_after(site, avoid=set(through) - {site})
@@ -171,6 +286,7 @@ def run(ctx):
             if c.is_trait_method("Write", "write_vectored") and c.bb in b.reachable_after(c.bb):
                 loops.append((b, c))
     ctx.floor("R16.2", "vectored-write retry loops", len(loops), 1)
+    may_be_empty = possibly_empty_buffers(ctx, F)
     for b, w in loops:
         key = fnkey(b)
         pr = Prov(b)
@@ -287,6 +403,47 @@ def run(ctx):
                       "on Interrupted the loop %s" % ("advances the slices although nothing was written (bytes would be omitted)" if retry else "does not retry"))
             ctx.check(w.bb not in b.reachable(other_t) and _returns_variant(b, other_t, "Err"), "R16.2", key + "#hard-error-returned", loc(b, other_t),
                       "a hard write error does not leave the loop with Err")
+        # R16.7 the advance helper leaves no empty slice in front: its loop ends only when the list is exhausted or a slice was cut
+        # in the middle - never merely because the byte count is used up (an empty leading IoSlice makes a writer that serves the
+        # first buffer report Ok(0), which this very loop turns into WriteZero)
+        for a_ in adv_in_loop[:1]:
+            for hb in local_callee_bodies(F, a_):
+                hpr = Prov(hb)
+                heads = [i for i in hb.live_blocks() if i in hb.reachable_after(i)]
+                cyc = set(heads)
+                exits = [(x, y) for x in cyc for y in hb.succ(x) if y not in cyc and (set(hb.reachable(y)) & set(hb.return_blocks()))]
+                badx = []
+                for x, y in exits:
+                    t = hb.term(x)
+                    if t["k"] != "switch":
+                        continue
+                    # the exit must be a match on the Option returned by the list access / by the checked subtraction itself (or on
+                    # is_empty of the list) - not a comparison of the running count
+                    okx = False
+                    for st_ in hb.stmts(x):
+                        if st_["k"] == "assign" and st_["rv"]["k"] == "discr" and not st_["rv"]["place"].get("p") and op_local(t["discr"]) == st_["lhs"]["l"]:
+                            for kind_, bb_, j_, node_ in hb.defs().get(st_["rv"]["place"]["l"], []):
+                                if kind_ == "call" and (node_.get("callee") or {}).get("name") in ("first_mut", "first", "split_first", "split_first_mut", "get", "get_mut", "next", "checked_sub", "split_first_chunk"):
+                                    okx = True
+                    dl_ = op_local(t["discr"])
+                    for kind_, bb_, j_, node_ in hb.defs().get(dl_, []) if dl_ is not None else []:
+                        if kind_ == "call" and (node_.get("callee") or {}).get("name") == "is_empty":
+                            okx = True
+                    if okx:
+                        continue
+                    names = {(hb.term(o[1]).get("callee") or {}).get("name") for o in hpr.operand(t["discr"]) if o[0] in ("call", "callf")}
+                    badx.append((x, sorted(n for n in names if n) or ["a comparison of the byte count"]))
+                # (only matters if some buffer handed to a vectored send can be empty at that point; with every buffer known non-empty an
+                # early stop leaves a non-empty slice in front and is harmless)
+                if badx and not may_be_empty:
+                    ctx.ok("R16.2", fnkey(hb) + "#advance-stops-only-at-list-end-or-inside-a-slice", loc(hb),
+                           "the loop can stop when the count is used up, but every buffer passed to a vectored send is known to be non-empty")
+                    continue
+                ctx.check(bool(exits) and not badx, "R16.2", fnkey(hb) + "#advance-stops-only-at-list-end-or-inside-a-slice", loc(hb, badx[0][0] if badx else None),
+                          "the slice-advancing loop can stop for another reason than `no slice left` / `slice cut in the middle` (exit at bb%s decided by %s): "
+                          "an empty slice can stay at the front, and a writer that serves only the first buffer then reports Ok(0), i.e. WriteZero for a "
+                          "writer that never failed" % (badx[0][0] if badx else "?", badx[0][1] if badx else ""),
+                          "%d loop exits, all on list-exhausted / partial-slice conditions" % len(exits))
         # success only when nothing remains
         okrets = _ok_return_blocks(b)
         empt = [c for c in b.calls() if c.name == "is_empty" and c.bb in b.reachable_after(w.bb)]
@@ -324,7 +481,7 @@ def run(ctx):
             continue
         if any(c.is_trait_method("EntryIoStream") or c.is_trait_method("EntryIoStreamExt") for c in b.calls()):
             sinks.append(b)
-    ctx.floor("R16.3", "sink bodies calling the stream", len(sinks), 4)
+    ctx.floor("R16.3", "sink bodies calling the stream", len(sinks), 3)
     for b in sinks:
         for c in b.calls():
             if not (c.is_trait_method("EntryIoStream") or c.is_trait_method("EntryIoStreamExt")) or c.dest.get("p") or c.target is None:
@@ -373,13 +530,13 @@ def run(ctx):
     from mq.report import RuleView
     before = len(ctx.instances)
     c01.run(RuleView(ctx, {"R01.3": "R16.5"}))
-    ctx.floor("R16.5", "error-independence obligations on the drain loop and its consumer", len([i for i in ctx.instances[before:] if i["rule"] == "R16.5"]), 4)
+    ctx.floor("R16.5", "error-independence obligations on the drain loop and its consumer", len([i for i in ctx.instances[before:] if i["rule"] == "R16.5"]), 3)
     # ------------------------------------------------------------------------ R16.6 a failed write leaves nothing behind in the formatter (= R14.2 on the buffers)
     import rules.c14 as c14
     import rules.c02 as c02
     before6 = len(ctx.instances)
     c14.run(ctx, only_fields=c02.buffer_field(F), rule_prefix="R16.6")
-    ctx.floor("R16.6", "output buffers checked for reset-before-use", len([i_ for i_ in ctx.instances[before6:] if i_["rule"] == "R16.6" and "clean-at-first-use" in i_["instance"]]), 7)
+    ctx.floor("R16.6", "output buffers checked for reset-before-use", len([i_ for i_ in ctx.instances[before6:] if i_["rule"] == "R16.6" and "clean-at-first-use" in i_["instance"]]), 5)
     return EXPL
 
 
